@@ -574,6 +574,34 @@ pub fn check_buffer(ctx: &mut Ctx, buf: &[u8], o: &Opts) -> Outcome {
                    "ref_exposed": ref_exposed.iter().map(|(t, v)| json!([t, hex(v)])).collect::<Vec<_>>()})
         });
     }
+    // C10 speaks about every message the implementation accepts.  The rule is evaluated on the
+    // reference walk whenever that walk is complete: always when the reference accepts, and also
+    // when it rejects for ordering / CRC causes only (its walk then still covers the whole body).
+    let ref_walk_complete = rp.excess == 0
+        && rp.attrs.last().map_or(buf.len() == 20 && rp.declared == 0, |a| a.padded_end() == 20 + rp.declared)
+        && rp.causes.iter().all(|c| !matches!(c, Cause::Truncated { .. } | Cause::NotStun));
+    if !rp.causes.is_empty() && ref_walk_complete {
+        let same = exposed.len() == ref_exposed.len() && exposed.iter().zip(ref_exposed.iter()).all(|(a, b)| a.0 == b.0 && a.1.as_slice() == b.1);
+        // exposing *less* than the rule on a message that should not have been accepted at all is
+        // C02's business; exposing something located after an integrity attribute is C10's
+        let first_int = ref_attrs.iter().position(|a| a.0 == MI || a.0 == MI256);
+        let leaked = first_int.map_or(false, |fi| {
+            exposed.iter().any(|(t, v)| {
+                *t != MI && *t != MI256 && *t != FP && !ref_attrs[..=fi].iter().any(|(rt, rv)| rt == t && *rv == v.as_slice()) && ref_attrs[fi + 1..].iter().any(|(rt, rv)| rt == t && *rv == v.as_slice())
+            })
+        });
+        if !same && leaked {
+            ctx.violation(
+                "C10",
+                "exposure",
+                "iter_attributes",
+                &format!("wrongly-accepted,{}", tail_shape(buf, &rp.attrs)),
+                || w("iter_attributes"),
+                format!("nothing located after the first integrity attribute except MI-SHA256 / FINGERPRINT: [{}]", fmt_seq_r(&ref_exposed)),
+                format!("[{}]", fmt_seq(&exposed)),
+            );
+        }
+    }
     if rp.causes.is_empty() {
         // C10: exposure rule
         let same = exposed.len() == ref_exposed.len()
@@ -754,6 +782,28 @@ pub fn check_buffer(ctx: &mut Ctx, buf: &[u8], o: &Opts) -> Outcome {
                         (Some((_, v)), res) => {
                             let rv = ref_decode(k, v, &rp.tid);
                             ctx.count(if rv.is_some() { "typed-extract-valid" } else { "typed-extract-invalid" });
+                            // the value handed back must be the first occurrence's, not a later one's
+                            if let Ok(Some(got_bytes)) = res {
+                                let same_type: Vec<&Vec<u8>> = exposed.iter().filter(|e| e.0 == k.code()).map(|e| &e.1).collect();
+                                if same_type.len() > 1 {
+                                    ctx.count("typed-lookup-with-repeated-type");
+                                    let canon = |x: &Vec<u8>| ref_decode(k, x, &rp.tid).and_then(|d| crate::refimpl::attrs::ref_encode(k, &d, &rp.tid));
+                                    let first_c = canon(same_type[0]);
+                                    let is_first = first_c.as_ref() == Some(got_bytes) || same_type[0] == got_bytes;
+                                    let later = same_type[1..].iter().any(|x| canon(x).as_ref() == Some(got_bytes) || *x == got_bytes);
+                                    if !is_first && later {
+                                        ctx.violation(
+                                            "C02",
+                                            "typed-lookup-first-match",
+                                            "Message::attribute",
+                                            &format!("{},later-occurrence-returned", k.name()),
+                                            || w("attribute"),
+                                            format!("the first exposed {} ({}), or its decoding error", k.name(), hex(same_type[0])),
+                                            format!("a later occurrence: {}", hex(got_bytes)),
+                                        );
+                                    }
+                                }
+                            }
                             match (rv.is_some(), res) {
                                 (true, Ok(Some(_))) | (false, Err(_)) => {}
                                 (_, Ok(None)) => ctx.violation(
